@@ -12,19 +12,64 @@ import (
 // union over the implementations found in the loaded packages; calls through function values are "*").
 // Key names must agree with Exec.fieldKey / ptrKey / mapKey.
 
+// keyDesc remembers the Go type behind a heap key so that any run can compute its sort.
+type keyDesc struct {
+	kind string // field | ptr | map
+	t    types.Type
+}
+
+var keyDescs = map[string]keyDesc{}
+
 func fieldKeyName(owner types.Type, f *types.Var) string {
 	name := shortTypeName(owner)
 	if name == "" {
 		name = mangle(types.TypeString(owner, nil))
 	}
-	return "F:" + name + "." + f.Name()
+	k := "F:" + name + "." + f.Name()
+	if _, ok := keyDescs[k]; !ok {
+		keyDescs[k] = keyDesc{"field", f.Type()}
+	}
+	return k
 }
 
-func ptrKeyName(elem types.Type) string { return "P:" + mangle(types.TypeString(elem, nil)) }
+func ptrKeyName(elem types.Type) string {
+	k := "P:" + mangle(types.TypeString(elem, nil))
+	if _, ok := keyDescs[k]; !ok {
+		keyDescs[k] = keyDesc{"ptr", elem}
+	}
+	return k
+}
 
 func mapKeyNames(mt *types.Map) []string {
 	ts := mangle(types.TypeString(mt, nil))
-	return []string{"MD:" + ts, "MV:" + ts, "ML:" + ts}
+	ks := []string{"MD:" + ts, "MV:" + ts, "ML:" + ts}
+	for _, k := range ks {
+		if _, ok := keyDescs[k]; !ok {
+			keyDescs[k] = keyDesc{"map", mt}
+		}
+	}
+	return ks
+}
+
+// ensureKeySort registers the sort of a key known to the write-set analysis.
+func (e *Exec) ensureKeySort(k string) bool {
+	if _, ok := e.keySort[k]; ok {
+		return true
+	}
+	d, ok := keyDescs[k]
+	if !ok {
+		return false
+	}
+	switch d.kind {
+	case "field":
+		e.regKey(k, ArraySort(SInt, e.S.SortOf(d.t)))
+	case "ptr":
+		e.regKey(k, ArraySort(SInt, e.S.SortOf(d.t)))
+	case "map":
+		e.mapKey(d.t.(*types.Map))
+	}
+	_, ok = e.keySort[k]
+	return ok
 }
 
 type modInfo struct {
@@ -165,9 +210,23 @@ func (p *Program) contractKeys(c *Contract) map[string]bool {
 				continue
 			}
 		case *ast.CallExpr:
-			if id, ok := v.Fun.(*ast.Ident); ok && strings.HasPrefix(id.Name, "g_") {
-				out["G:"+shortPkg(c.Pkg)+"."+strings.TrimPrefix(id.Name, "g_")] = true
+			if id, ok := v.Fun.(*ast.Ident); ok && strings.HasPrefix(id.Name, "G_") {
+				k := "G:" + shortPkg(c.Pkg) + "." + strings.TrimPrefix(id.Name, "G_")
+				out[k] = true
+				if _, has := keyDescs[k]; !has && t != nil {
+					keyDescs[k] = keyDesc{"field", t}
+				}
 				continue
+			}
+			if sel, ok := v.Fun.(*ast.SelectorExpr); ok && strings.HasPrefix(sel.Sel.Name, "G_") {
+				if fn, ok := p.CInfo.Uses[sel.Sel].(*types.Func); ok {
+					k := "G:" + shortPkg(pkgPathOf(fn)) + "." + strings.TrimPrefix(sel.Sel.Name, "G_")
+					out[k] = true
+					if _, has := keyDescs[k]; !has && t != nil {
+						keyDescs[k] = keyDesc{"field", t}
+					}
+					continue
+				}
 			}
 		}
 		out["*"] = true
